@@ -797,6 +797,79 @@ impl Sim {
     }
 }
 
+impl Sim {
+    /// Priority-based schedule (PCT style): every component (the environment's view of each
+    /// worker, and each worker) gets a random priority; the enabled move of highest priority is
+    /// taken; at `changes` random points the current leader is demoted.  Produces the long
+    /// "one side runs far ahead" schedules that uniform random choice almost never does.
+    pub fn run_pct(&mut self, rng: &mut Rng, quanta: &[usize], max_steps: usize, changes: usize) {
+        let nw = self.nworkers();
+        let ncomp = 2 * nw;
+        let mut prio: Vec<i64> = (0..ncomp as i64).collect();
+        for i in (1..ncomp).rev() {
+            prio.swap(i, rng.below(i + 1));
+        }
+        let horizon = 120usize;
+        let mut change_at: Vec<usize> = (0..changes).map(|_| rng.below(horizon)).collect();
+        change_at.sort_unstable();
+        let q_run = *rng.pick(quanta);
+        let mut low: i64 = -1;
+        let mut steps = 0;
+        while steps < max_steps {
+            steps += 1;
+            if self.idle() {
+                match self.next_timeout() {
+                    Some(t) if t > self.now => {
+                        self.tick(t - self.now);
+                        continue;
+                    }
+                    Some(_) => {}
+                    None => break,
+                }
+            }
+            // enabled components: index w = environment handles worker w's oldest event; nw + w = worker w steps
+            let mut best: Option<usize> = None;
+            for c in 0..ncomp {
+                let enabled = if c < nw {
+                    self.evt_len(c) > 0
+                } else {
+                    let w = c - nw;
+                    !self.dead[w]
+                        && (self.cmd_len_raw(w) > 0
+                            || self.runnable(w)
+                            || self.workers[w].next_timeout_ms().map(|t| t <= self.now).unwrap_or(false))
+                };
+                if enabled && best.map(|b| prio[c] > prio[b]).unwrap_or(true) {
+                    best = Some(c);
+                }
+            }
+            let Some(c) = best else {
+                if self.backend_pending() {
+                    self.env_step(0, 0);
+                    continue;
+                }
+                break;
+            };
+            if change_at.first().map(|&x| x <= steps).unwrap_or(false) {
+                change_at.remove(0);
+                // demote the leader below everybody else
+                prio[c] = low;
+                low -= 1;
+            }
+            if c < nw {
+                self.env_step(c, 1);
+            } else {
+                let w = c - nw;
+                let cl = self.cmd_len(w);
+                // mostly everything visible, sometimes a strict prefix
+                let k = if cl > 1 && rng.chance(1, 4) { rng.below(cl) } else { ALL };
+                let q = if rng.chance(1, 3) { *rng.pick(quanta) } else { q_run };
+                self.worker_step(w, k, q);
+            }
+        }
+    }
+}
+
 fn r_is_panic(crash: &Option<String>) -> bool {
     crash.as_ref().map(|c| c.contains("panicked")).unwrap_or(false)
 }
